@@ -3,7 +3,7 @@ use crate::framework::{run_proptest, Ctx, Fam, Outcome};
 use crate::gen;
 use crate::refprint;
 use crate::refvalue::RefValue;
-use json_syntax::{Print, Value};
+use json_syntax::Value;
 use proptest::prelude::*;
 use serde_json::{json, Value as J};
 
@@ -149,7 +149,6 @@ pub fn property(v: &RefValue) -> Result<Report, (String, Option<&'static str>)> 
 				// the known finding did not show: compare as usual for everything else
 				classes.push("class_a_serialized(finding_absent)");
 			} else {
-				crate::objquery::self_consistent(&s).map_err(|m| (format!("to_value(&value) is not queryable by key: {m}"), None))?;
 				let expected = serialize_model(v);
 				let got = RefValue::from_value(&s);
 				if got != expected {
@@ -182,7 +181,6 @@ pub fn property(v: &RefValue) -> Result<Report, (String, Option<&'static str>)> 
 	if !dup {
 		match json_syntax::from_value::<Value>(value.clone()) {
 			Ok(d) => {
-				crate::objquery::self_consistent(&d).map_err(|m| (format!("from_value::<Value>(v) is not queryable by key: {m}"), None))?;
 				let got = RefValue::from_value(&d);
 				match same_modulo_number_spelling(v, &got, "$", &|_| true) {
 					Ok(()) => {}
@@ -208,7 +206,6 @@ pub fn property(v: &RefValue) -> Result<Report, (String, Option<&'static str>)> 
 		let theirs: Result<J, _> = serde_json::from_str(&text);
 		match (ours, theirs) {
 			(Ok(o), Ok(t)) => {
-				crate::objquery::self_consistent(&o).map_err(|m| (format!("serde_json::from_str::<Value> result is not queryable by key: {m}"), None))?;
 				let got = RefValue::from_value(&o);
 				// exactness is demanded only where serde_json's own float parser is exact on the token
 				let exact = |tok: &str| serde_json::from_str::<f64>(tok).ok() == tok.parse::<f64>().ok();
